@@ -243,6 +243,6 @@ def replay(ctx, rec):
         print(h, "->", r["err"] or ("identical" if r["reser"] == r["buf"] else "different bytes"))
         bad += 1 if (r["err"] or r["reser"] != r["buf"]) else 0
     if bad:
-        print(f"VIOLATION property=C15 replay=(given) {bad} buffers still fail")
+        print(f"VIOLATION property=C15 replay={rec.get('path', '(given)')} {bad} buffers still fail")
         return 1
     return 0
